@@ -33,6 +33,8 @@ pub enum Scen {
     /// channel 1 open, funding and mutual close confirmed, 98 further blocks, forget requested:
     /// two more blocks and a heartbeat prune it
     Prunable,
+    /// a channel stub (id 2) that is one block short of the age at which the heartbeat discards it
+    StubAged,
     /// like `Swept`, but only the HTLC outputs and their second level are spent: the node's main
     /// output of the confirmed commitment is still unswept
     HtlcsSwept,
@@ -375,6 +377,15 @@ impl Model for NodeModel {
             s.ghost.forget_requested.insert(1, true);
             s.ghost.hwm = 1;
         }
+        if self.cfg.scen == Scen::StubAged {
+            let r = s.w().new_channel(2);
+            assert!(r.is_ok(), "scenario stub: {}", r.tag());
+            // regtest keeps a stub for 6 + 100 blocks
+            for i in 0..106u32 {
+                let r = self.connect_block(&mut s, &[], 100 + i);
+                assert!(r.is_ok(), "scenario block: {}", r.tag());
+            }
+        }
         if self.cfg.scen == Scen::Prunable {
             let r = self.connect_block(&mut s, &[Tx::Mutual], 60);
             assert!(r.is_ok(), "scenario block (mutual close): {}", r.tag());
@@ -441,6 +452,10 @@ impl Model for NodeModel {
                 v.push(Op::Forget(1));
                 v.push(Op::New(1));
             }
+            Scen::StubAged => {
+                v.push(Op::New(2));
+                v.push(Op::Forget(2));
+            }
             Scen::Unilateral | Scen::Swept | Scen::HtlcsSwept | Scen::TwoParts => {
                 v.push(Op::Forget(1));
                 v.push(Op::New(1));
@@ -457,7 +472,7 @@ impl Model for NodeModel {
         if s.ghost.empties < 2 {
             v.push(Op::Empty(1));
         }
-        if s.ghost.big_empties < 1 {
+        if s.ghost.big_empties < 1 && self.cfg.scen != Scen::StubAged {
             v.push(Op::Empty(98));
             v.push(Op::Empty(99));
         }
@@ -664,12 +679,15 @@ fn configs_plain(tier: Tier, monitors: bool) -> Vec<NodeCfg> {
             NodeCfg { scen: Scen::TwoParts, max_ops: 4, monitors, cloud: false, perm: false, anchors: false, cp_close: false, streamed: false },
             NodeCfg { scen: Scen::MutualReorged, max_ops: 3, monitors, cloud: false, perm: false, anchors: false, cp_close: false, streamed: true },
             NodeCfg { scen: Scen::Swept, max_ops: 5, monitors, cloud: false, perm: false, anchors: false, cp_close: false, streamed: false },
+            NodeCfg { scen: Scen::StubAged, max_ops: 4, monitors, cloud: false, perm: false, anchors: false, cp_close: false, streamed: false },
         ],
         (Tier::Quick, true) => vec![
             NodeCfg { scen: Scen::Lifecycle, max_ops: 4, monitors, cloud: false, perm: false, anchors: false, cp_close: false, streamed: false },
             NodeCfg { scen: Scen::Mutual, max_ops: 3, monitors, cloud: false, perm: false, anchors: false, cp_close: false, streamed: false },
             NodeCfg { scen: Scen::Lifecycle, max_ops: 3, monitors, cloud: true, perm: false, anchors: false, cp_close: false, streamed: false },
             NodeCfg { scen: Scen::Prunable, max_ops: 3, monitors, cloud: false, perm: true, anchors: false, cp_close: false, streamed: false },
+            NodeCfg { scen: Scen::StubAged, max_ops: 3, monitors, cloud: false, perm: false, anchors: false, cp_close: false, streamed: false },
+            NodeCfg { scen: Scen::StubAged, max_ops: 3, monitors, cloud: true, perm: false, anchors: false, cp_close: false, streamed: false },
         ],
         (Tier::Thorough, _) => vec![
             NodeCfg { scen: Scen::Lifecycle, max_ops: 7, monitors, cloud: false, perm: false, anchors: false, cp_close: false, streamed: false },
@@ -688,6 +706,8 @@ fn configs_plain(tier: Tier, monitors: bool) -> Vec<NodeCfg> {
             NodeCfg { scen: Scen::MutualReorged, max_ops: 5, monitors, cloud: false, perm: false, anchors: false, cp_close: false, streamed: true },
             NodeCfg { scen: Scen::MutualReorged, max_ops: 5, monitors, cloud: false, perm: false, anchors: false, cp_close: false, streamed: false },
             NodeCfg { scen: Scen::Mutual, max_ops: 6, monitors, cloud: false, perm: false, anchors: false, cp_close: false, streamed: true },
+            NodeCfg { scen: Scen::StubAged, max_ops: 6, monitors, cloud: false, perm: false, anchors: false, cp_close: false, streamed: false },
+            NodeCfg { scen: Scen::StubAged, max_ops: 5, monitors, cloud: true, perm: false, anchors: false, cp_close: false, streamed: false },
         ],
     }
 }
